@@ -224,7 +224,7 @@ pub fn parse_record(rec: &str) -> BTreeMap<&str, &str> {
 }
 
 /// one evaluation's complete input
-#[derive(Clone, Debug, PartialEq, Eq, Serialize, Deserialize)]
+#[derive(Clone, Debug, PartialEq, Eq, Hash, Serialize, Deserialize)]
 pub struct Cfg {
     pub graph: Graph,
     /// version bit per job (meaningful for Always jobs: "the input changed")
@@ -243,6 +243,18 @@ pub struct Cfg {
 }
 
 impl Cfg {
+    /// 128-bit fingerprint (two independently keyed 64-bit hashes)
+    pub fn fingerprint(&self) -> u128 {
+        use std::hash::{Hash, Hasher};
+        let mut a = std::collections::hash_map::DefaultHasher::new();
+        0xa5u8.hash(&mut a);
+        self.hash(&mut a);
+        let mut b = std::collections::hash_map::DefaultHasher::new();
+        self.hash(&mut b);
+        0x5au8.hash(&mut b);
+        ((a.finish() as u128) << 64) | b.finish() as u128
+    }
+
     pub fn input_list(&self, j: usize) -> String {
         let g = &self.graph;
         match self.conv {
